@@ -88,6 +88,16 @@ pub fn shapes(kmax: usize) -> Vec<(String, P)> {
         }
         add(format!("shared-operand({})", k), nn, e, vec![0], vec![acc], &mut out);
     }
+    // one operation reaching the same node with multiplicity k and another node once (counting paths
+    // with more than 16 / 32 entries in one sweep)
+    for k in [3usize, 8, 15, 16, 17, 31, 32, 33] {
+        let mut tgt = vec![1usize; k];
+        tgt.push(2);
+        add(format!("fan-multi({})", k), 3, vec![edge(0, vec![0], tgt.clone()), edge(0, vec![1], vec![]), edge(0, vec![2, 1], vec![])], vec![0], vec![], &mut out);
+        let mut src = vec![2usize];
+        src.extend(vec![1usize; k]);
+        add(format!("fan-multi-in({})", k), 3, vec![edge(0, vec![], vec![1]), edge(0, vec![], vec![2]), edge(0, src, vec![0])], vec![], vec![0], &mut out);
+    }
     out
 }
 
